@@ -37,5 +37,25 @@ def main():
         print(f"| {sid} | {summ.replace('|', '/')} | {'<br>'.join(cells) or 'not run'} | {' '.join(how).replace('|', '/')} |")
 
 
+
+
+def update_design():
+    """Replace the part of DESIGN.md between the SEEDTABLE markers by the current table."""
+    import io
+    import contextlib
+    buf = io.StringIO()
+    with contextlib.redirect_stdout(buf):
+        main()
+    p = os.path.join(V, 'DESIGN.md')
+    s = open(p).read()
+    a = s.index('<!-- SEEDTABLE BEGIN -->') + len('<!-- SEEDTABLE BEGIN -->')
+    b = s.index('<!-- SEEDTABLE END -->')
+    open(p, 'w').write(s[:a] + '\n' + buf.getvalue() + s[b:])
+
+
 if __name__ == '__main__':
-    main()
+    import sys
+    if len(sys.argv) > 1 and sys.argv[1] == '--design':
+        update_design()
+    else:
+        main()
